@@ -214,6 +214,28 @@ def fn_code(role, tag, use, naux, cpname=None):
     return code
 
 
+def unmangled(clsname, key):
+    """the spelling a class statement would use for a body key (`_C__x` is written `__x` inside class C)"""
+    pre = "_" + clsname.lstrip("_") + "__"
+    if key.startswith(pre) and not key.endswith("__"):
+        return key[len(pre) - 2:]
+    return key
+
+
+def func_name(hs, key, spec, natural=False):
+    """__name__ of the function(s) behind a body key: normally the key as written, but a member may be an ALIAS of
+    a differently named function, a lambda, or carry the name of another member / a field (harness-only variation:
+    nothing in the build may go by a function's __name__)"""
+    kind = spec.get("fname") or "same"
+    if kind == "same":
+        return unmangled(hs.get("name", "C"), key)
+    if kind == "lambda" and not natural:
+        return "<lambda>"
+    if kind.startswith("collide:") and not natural:
+        return kind[len("collide:"):]
+    return "_impl_" + "".join(ch if ch.isalnum() else "_" for ch in key)
+
+
 def make_fn(name, role, tag, fs, cells, cpname=None):
     """a function object whose closure is made of the cells named by fs['cells']"""
     ids = list(fs["cells"])
@@ -396,7 +418,7 @@ def build(hs, decorate=True):
         for key, spec in items:
             k = spec["k"]
             if k == "plain":
-                src.append(f"    {key} = {spec.get('value', 0)!r}")
+                src.append(f"    {unmangled(name, key)} = {spec.get('value', 0)!r}")
                 continue
             if k == "prop":
                 for r in ("fget", "fset", "fdel"):
@@ -404,7 +426,7 @@ def build(hs, decorate=True):
                         fs = spec[r]
                         src += fn_source(f"_{r}", r, f"{key}.{r}", fs.get("use") if fs["uses"] else None, 0)
                 args = ", ".join(f"_{r}" if spec.get(r) else "None" for r in ("fget", "fset", "fdel"))
-                src.append(f"    {key} = property({args})")
+                src.append(f"    {unmangled(name, key)} = property({args})")
                 for r in ("fget", "fset", "fdel"):
                     if spec.get(r):
                         src.append(f"    del _{r}")
@@ -412,17 +434,25 @@ def build(hs, decorate=True):
             fs = spec["f"]
             role = _role_of(key, spec) or k
             use = fs.get("use") if fs["uses"] else None
+            keysrc = unmangled(name, key)
+            defname = func_name(hs, key, spec, natural=True)
             if k == "cm" or role == "isub":
-                src.append("    @classmethod")
+                wrapper = "classmethod"
             elif k == "sm":
-                src.append("    @staticmethod")
+                wrapper = "staticmethod"
             elif k == "cprop":
-                src.append("    @functools.cached_property")
+                wrapper = "functools.cached_property"
             elif k == "opaque" and spec.get("opq") == "wraps":
-                src.append("    @_wrap")
+                wrapper = "_wrap"
             elif k == "opaque":
-                src.append("    @_Descr")
-            src += fn_source(key, role if role in PARAMS else k, key, use, 0, cpname=key)
+                wrapper = "_Descr"
+            else:
+                wrapper = None
+            src += fn_source(defname, role if role in PARAMS else k, key, use, 0, cpname=key)
+            if wrapper or defname != keysrc:
+                src.append(f"    {keysrc} = {wrapper}({defname})" if wrapper else f"    {keysrc} = {defname}")
+            if defname != keysrc:
+                src.append(f"    del {defname}")
         if len(src) == 1:
             src.append("    pass")
         ns = dict(GLOBALS)
@@ -455,12 +485,12 @@ def build(hs, decorate=True):
             if k == "plain":
                 ns[key] = spec.get("value", 0)
             elif k == "prop":
-                fns = [make_fn(key, r, f"{key}.{r}", spec[r], cells) if spec.get(r) else None
+                fns = [make_fn(func_name(hs, key, spec), r, f"{key}.{r}", spec[r], cells) if spec.get(r) else None
                        for r in ("fget", "fset", "fdel")]
                 ns[key] = property(*fns)
             else:
                 role = _role_of(key, spec) or k
-                f = make_fn(key, role if role in PARAMS else k, key, spec["f"], cells, cpname=key)
+                f = make_fn(func_name(hs, key, spec), role if role in PARAMS else k, key, spec["f"], cells, cpname=key)
                 if k == "cm" or role == "isub":
                     ns[key] = classmethod(f)
                 elif k == "sm":
